@@ -120,7 +120,7 @@ PROPS['C20'] = dict(
 )
 
 PROPS['C02'] = dict(
-    prop_modules=['Vise.Props.C02'], lean_targets=['Vise.Props.C02'], suites=['render', 'engine'],
+    prop_modules=['Vise.Props.C02', 'Vise.Props.C02Pages'], lean_targets=['Vise.Props.C02', 'Vise.Props.C02Pages'], suites=['render', 'engine'],
     compare={'engine': eng(['x', 'f', 'o', 'i'])},
     trusted=ENGINE_TRUSTED + ["the render suite renders every index on a fresh Page/Menu/Sizer, as the engine does per request; walking with the next selector through the engine is covered by the engine suite's lst/sub nodes"],
     assumptions=["OutputSize > 0"],
